@@ -810,6 +810,15 @@ def gen_other(r, cell, p):
 
 PRECS = [30, 40, 53, 64, 80, 100, 113, 150, 200, 250, 300]
 N_SHARDS = 16
+# seed-independent regression witnesses, run by shard 0 of every tier
+WITNESSES = [
+    {'kind': 'diff', 'f': {'fam': 'poly', 'P': [[0, 0], [0, 0], [0, 0], [1, 0]], 'style': 'pow'}, 'x': [5, 31], 'n': 1, 'opts': {'relative': True}, 'prec': 53},
+    {'kind': 'diff', 'f': {'fam': 'exp', 'P': [[1, 0]], 'k': [1, 0], 'w': [1, 0], 'phi': [0, 0], 'T': '1'}, 'x': [5, -100], 'n': 2,
+     'opts': {'relative': True}, 'prec': 53},
+    {'kind': 'pade', 'a': [[2, 0], [3, 0], [5, 0]], 'L': 0, 'M': 0, 'prec': 53},
+    {'kind': 'pade', 'a': [[2, 0], [3, 0], [5, 0], [1, 0]], 'L': 1, 'M': 2, 'prec': 53},
+    {'kind': 'diff', 'f': {'fam': 'exp', 'P': [[1, 0]], 'k': [1, 0], 'w': [1, 0], 'phi': [0, 0], 'T': '1'}, 'x': [3, 0], 'n': 4, 'opts': {}, 'prec': 53},
+]
 
 
 def shards(tier, seed):
@@ -827,6 +836,10 @@ def run_shard(shard, rec):
     budget = {'quick': 200.0, 'thorough': 2000.0}[shard['tier']]
     with AnchorCount(rec, anchors):
         idx = shard['shard'] * 11
+        if shard['shard'] == 0:
+            for w in WITNESSES:
+                run_desc(mp, rec, dict(w))
+            rec.event('fixed witnesses run', len(WITNESSES))
         t0 = time.process_time()
         for j in range(shard['n']):
             i = idx + j
